@@ -40,6 +40,7 @@ type c12ConnScn struct {
 	Half        bool  `json:"half"` // after Pre: the first bytes of one more request, never completed
 	Bulk        int   `json:"bulk,omitempty"`          // every response of this connection carries this many extra bytes
 	ReadDelayMs int   `json:"read_delay_ms,omitempty"` // the client starts reading only this long after the trigger (-1: never)
+	Abort       bool  `json:"abort,omitempty"`         // once the server has read Pre, the client resets the connection (SO_LINGER 0 -> RST): every later write of the server to it fails
 }
 
 type c12Scn struct {
@@ -158,7 +159,7 @@ func c12FreePort() int {
 }
 
 // c12Reader parses the server's packets on one client connection into resp / notify / eof events.
-func c12Reader(log *c12Logger, ci int, conn net.Conn, resp *int32, done chan struct{}, gate <-chan struct{}) {
+func c12Reader(log *c12Logger, ci int, conn net.Conn, resp *int32, done chan struct{}, gate <-chan struct{}, dead *int32) {
 	defer close(done)
 	if gate != nil {
 		<-gate // a slow reader: nothing is read before the gate opens
@@ -166,17 +167,23 @@ func c12Reader(log *c12Logger, ci int, conn net.Conn, resp *int32, done chan str
 	hdr := make([]byte, 4)
 	for {
 		if _, err := io.ReadFull(conn, hdr); err != nil {
-			log.add("eof", ci, 0)
+			if dead == nil || atomic.LoadInt32(dead) == 0 {
+				log.add("eof", ci, 0) // (not when the client has reset the connection itself)
+			}
 			return
 		}
 		n := int(binary.BigEndian.Uint32(hdr))
 		if n < 4 || n > 1<<26 {
-			log.add("eof", ci, 0)
+			if dead == nil || atomic.LoadInt32(dead) == 0 {
+				log.add("eof", ci, 0) // (not when the client has reset the connection itself)
+			}
 			return
 		}
 		body := make([]byte, n-4)
 		if _, err := io.ReadFull(conn, body); err != nil {
-			log.add("eof", ci, 0)
+			if dead == nil || atomic.LoadInt32(dead) == 0 {
+				log.add("eof", ci, 0) // (not when the client has reset the connection itself)
+			}
 			return
 		}
 		var rp requestf.ResponsePacket
@@ -347,6 +354,7 @@ threads=1
 	resp := make([]int32, len(scn.Conns))
 	rdone := make([]chan struct{}, len(scn.Conns))
 	gates := make([]chan struct{}, len(scn.Conns))
+	aborted := make([]int32, len(scn.Conns))
 	deadline := time.Now().Add(8 * time.Second)
 	for i := range scn.Conns {
 		for {
@@ -374,7 +382,7 @@ threads=1
 		if gates[i] != nil {
 			g = gates[i]
 		}
-		go c12Reader(log, i, conns[i], &resp[i], rdone[i], g)
+		go c12Reader(log, i, conns[i], &resp[i], rdone[i], g, &aborted[i])
 	}
 	// every connection is in the server's table before anything is sent (accept + Store are asynchronous)
 	for {
@@ -481,6 +489,21 @@ threads=1
 	case "USR2":
 		sig = syscall.SIGUSR2
 	}
+	// clients that abort: reset the connection (RST) now that the server has read their requests
+	nAbort := 0
+	for i, cs := range scn.Conns {
+		if cs.Abort {
+			atomic.StoreInt32(&aborted[i], 1)
+			if tc, ok := conns[i].(*net.TCPConn); ok {
+				tc.SetLinger(0)
+			}
+			conns[i].Close()
+			nAbort++
+		}
+	}
+	if nAbort > 0 {
+		time.Sleep(30 * time.Millisecond)
+	}
 	if scn.Signal != "DIRECT" && !c12SignalReady(5*time.Second) {
 		finish("the framework's signal handler was not installed within 5 s")
 	}
@@ -511,7 +534,7 @@ threads=1
 
 	var wg sync.WaitGroup
 	for i, cs := range scn.Conns {
-		if len(cs.Post) == 0 {
+		if len(cs.Post) == 0 || cs.Abort {
 			continue
 		}
 		wg.Add(1)
@@ -553,7 +576,7 @@ threads=1
 			lateConn = c
 			log.add("late", lateIdx, 0)
 			var n int32
-			go c12Reader(log, lateIdx, c, &n, make(chan struct{}), nil)
+			go c12Reader(log, lateIdx, c, &n, make(chan struct{}), nil, nil)
 			log.add("send", lateIdx, 0)
 			c.Write(c12Frame(lateIdx, 0, 0, 0))
 		}
@@ -570,7 +593,7 @@ threads=1
 		dl := time.After(2700 * time.Millisecond)
 	waitReaders:
 		for i := range scn.Conns {
-			if scn.Conns[i].ReadDelayMs < 0 {
+			if scn.Conns[i].ReadDelayMs < 0 || scn.Conns[i].Abort {
 				continue
 			}
 			select {
